@@ -315,14 +315,9 @@ def rule_use(ctx):
     ctx.units["C15.use_sites"] = n
 
 
-def run(ctx):
-    ctx.rule("C15.kdf", "same derivation length and identical, disjoint iv/key/mac-key slices in both directions", floor=3)
-    ctx.rule("C15.pad", "pad on every encrypt path, unpad on every decrypt path, same block size", floor=2)
-    ctx.rule("C15.mac", "MAC over iv||ciphertext, same digest, same truncation as the split in decrypt", floor=3)
-    ctx.rule("C15.first", "MAC verification dominates the decryptor", floor=1)
-    ctx.rule("C15.use", "callers of MediaCipher: one attempt with the announced kind; failure detected by `is None`", floor=2)
-    ctx.rule("C15.kinds", "four distinct info constants used symmetrically", floor=5)
-    ctx.assume("AES-CBC, HKDF, HMAC and PKCS7 primitives of `cryptography`/python-axolotl are trusted")
+def run_structural(ctx):
+    """the term-level reading of encrypt / decrypt (kept as the explanation when the execution of c15_rt is undecided)"""
+
     cls, efn, eg, eres = ctx.guarded("C15.direction", analyse_direction, ctx, "encrypt")
     _, dfn, dg, dres = ctx.guarded("C15.direction", analyse_direction, ctx, "decrypt")
     We = where(FILE, CLS + ".encrypt", efn.lineno)
@@ -516,4 +511,24 @@ def run(ctx):
     vals = [d.get("encrypt_") for d in infos.values()]
     ctx.check("C15.kinds", len(infos) >= 4 and len(set(vals)) == len(vals), where(FILE, CLS, None), "info constants",
               "media kinds share an info constant (a file of one kind decrypts as another): %s" % sorted(map(repr, vals)), "%d distinct constants" % len(vals))
+
+
+
+def run(ctx):
+    ctx.rule("C15.kdf", "iv / cipher key / MAC key are bytes 0..16 / 16..48 / 48..80 of HKDFv3(key, info of the kind, 112), both directions", floor=3)
+    ctx.rule("C15.pad", "always-padded AES-CBC (PKCS7, block 16) in the layout of every kind", floor=2)
+    ctx.rule("C15.rt", "decrypt(encrypt(P)) = P for every length, aligned and empty included, on the same and on a fresh object", floor=4)
+    ctx.rule("C15.mac", "10-byte HMAC-SHA256 over iv || ciphertext; every tampered / truncated input is rejected", floor=3)
+    ctx.rule("C15.first", "nothing is decrypted before the tag has verified", floor=1)
+    ctx.rule("C15.use", "callers of MediaCipher: one attempt with the announced kind; failure detected by `is None`", floor=2)
+    ctx.rule("C15.kinds", "four kinds, each with its own info constant; a file of one kind is rejected as another; no secrets shared across kinds", floor=5)
+    ctx.assume("AES-CBC, HKDF, HMAC and PKCS7 primitives of `cryptography` / python-axolotl / hmac behave as their documentation says (the laws listed in sa/bytealg.py)")
+    ctx.assume("plaintext lengths 0..64 are executed one by one (quick tier: ten of them); longer contents are not decided separately - nothing in the algebra depends on a length except through its residue modulo the block size and the comparisons with 0 and the tag length")
+    from . import c15_rt
+    decided = ctx.guarded("C15.pad", c15_rt.rule_cipher, ctx)
     ctx.guarded("C15.use", rule_use, ctx)
+    if decided is None:
+        # the execution itself failed: fall back to the structural reading so that the property is not left undecided
+        scratch_floor = dict(ctx.floors)
+        ctx.guarded("C15.direction", run_structural, ctx)
+        ctx.floors.update(scratch_floor)
